@@ -123,6 +123,16 @@ def model_to_dict(m):
             if d.arity() == 0 and v.sort().name() == 'Struct':
                 out[d.name()] = {'sexpr': struct_to_plain(v)}
                 continue
+            if d.arity() == 0 and d.range().kind() == z3.Z3_ARRAY_SORT and \
+                    d.range().domain() == z3.IntSort() and \
+                    d.range().range() == z3.IntSort():
+                # array of character codes: the first entries
+                c = d()
+                out[d.name()] = {'array': [
+                    m.eval(z3.Select(c, z3.IntVal(i)),
+                           model_completion=True).as_long()
+                    for i in range(48)]}
+                continue
             if z3.is_string_value(v):
                 out[d.name()] = v.as_string()
             elif z3.is_int_value(v):
@@ -165,8 +175,30 @@ def solve(pc, goal, timeout_ms=OBLIGATION_TIMEOUT_MS):
     if st == 'unsat':
         return 'proved', 'cvc5', dt, None, smt2
     if st == 'sat':
+        if m is None:
+            m = _candidate_model(pc, goal, timeout_ms)
         return 'refuted', 'cvc5', dt, m, smt2
     return 'unknown', 'z3+cvc5', dt, None, smt2
+
+
+def _candidate_model(pc, goal, timeout_ms):
+    """cvc5 refuted the obligation but prints no model here: a candidate
+    from z3 on the quantifier-free hypotheses (it may violate the quantified
+    ones -- the native replay decides whether it is a real failing input)."""
+    try:
+        s = z3.Solver()
+        s.set('timeout', timeout_ms)
+        for c in pc:
+            if not sym.has_quantifier(c):
+                s.add(c)
+        ng = z3.Not(goal)
+        if not sym.has_quantifier(ng):
+            s.add(ng)
+        if s.check() == z3.sat:
+            return model_to_dict(s.model())
+    except Exception:  # noqa
+        pass
+    return None
 
 
 def cvc5_check(smt2, timeout_s):
